@@ -711,6 +711,40 @@ def analyse_start(o):
 
 
 # ---------------------------------------------------------------------------
+# Self-test of the monitors on the real package: two schedules OUTSIDE the properties' provisos, on which the
+# unmodified code must show exactly the failures the monitors exist to see. A monitor that stays quiet here is blind.
+
+def canaries():
+    # a hold (100 ns) longer than the staleness timeout (30 ns): the clean-up deletes the held entry, the next Lock
+    # finds no entry and is admitted while the first holder is still inside
+    two_holders = Scenario("canary-two-holders", "canary",
+                           ["mode lock", "procs 1", "tuning %d 7 30" % BIGSIZE, "seed 1", "yield 0", "watchdog 2000",
+                            "g 0 L1 S100 U1", "g 1 S50 L1 S100 U1"], timing=False)
+    # a holder that never unlocks: the waiter must be reported stuck at the watchdog instant
+    never_unlocks = Scenario("canary-stuck", "canary",
+                             ["mode lock", "procs 1", "tuning %d %d %d" % (BIGSIZE, 50, BIG), "seed 1", "yield 0", "watchdog 2000",
+                              "g 0 L1", "g 1 S5 L1 U1"], timing=False)
+    return [two_holders, never_unlocks]
+
+
+def judge_canaries(outs):
+    """-> (dict for the evidence, error message or None)"""
+    res = {}
+    err = []
+    a, b = outs
+    if a.status != "ok" or b.status != "ok":
+        return {"error": a.error or b.error}, "the self-test schedules could not be run: %s" % (a.error or b.error)
+    res["hold-longer-than-timeout"] = {k: ("fail" if a.verdicts.get(k) else "ok") for k in ("trace", "proviso", "exclusion")}
+    if not a.verdicts.get("proviso") or not a.verdicts.get("exclusion") or a.verdicts.get("trace"):
+        err.append("a hold longer than the staleness timeout must show as a conforming trace with `proviso fail` and `exclusion fail`, got %s" % res["hold-longer-than-timeout"])
+    stuck = [w for w in b.tail if w[0] == "stuck"]
+    res["holder-never-unlocks"] = [" ".join(w) for w in b.tail]
+    if [w[1:] for w in stuck] != [["1", "L", "1"]] or not any(f[1] == "stuck" for f in b.findings):
+        err.append("a waiter behind a holder that never unlocks must be reported stuck, got %s" % res["holder-never-unlocks"])
+    return res, ("; ".join(err) or None)
+
+
+# ---------------------------------------------------------------------------
 # Verdicts and evidence
 
 def _within_active_phase(o, line):
@@ -825,7 +859,14 @@ def check(prop, tier, seed, replay=None):
         scens = [sc] * 24 if sc.lines else []
     else:
         scens = scenarios(seed, tier, prop)
-    outs = run_all(hbin, scens)
+    can = canaries()
+    outs = run_all(hbin, scens + can)
+    can_res, can_err = judge_canaries(outs[len(scens):])
+    outs = outs[:len(scens)]
+    rep.cov["monitor_self_test"] = can_res
+    if can_err:
+        p = write_replay(prop, 907, ["self-test of the monitors failed on the real package"], can_err + "\n" + can[0].script + "\n" + can[1].script, ext="txt")
+        rep.violation(p, "self-test of the monitors failed: " + can_err, no_input=True)
     if recorded:
         # the recorded log of the failing run is judged again for the reader (it is a fact about the tree it was
         # recorded on, so it does not enter today's verdict: that comes from running the script again)
